@@ -2,6 +2,7 @@ import MindsVerif.Lemmas.WalkLiftP
 import MindsVerif.Lemmas.WalkRepl
 import MindsVerif.Lemmas.WalkTrace
 import MindsVerif.Lemmas.WalkSchemaOK
+import MindsVerif.Lemmas.WalkNoNone
 import MindsVerif.Gen.Schema
 /-!
 # C13 — the AST walker visits every table, expression and subquery once, in textual order
@@ -27,6 +28,8 @@ their kind, the order in which `to_string()` prints them, and the branch of the 
   list in `knownDevs`; each has a witness below (the model exhibits the deviation, by `decide`) and a
   reproduction on the real code in `known_findings.json`.
 * `C13_trace`, for every schema, tree and visitor: the log is a faithful trace of the visitor.
+* `C13_no_none_call` (every tree, every visitor, no hypothesis; via `phi13_clean`): the visitor is never called
+  with `None`.  `C13_regress_*`: regression examples for the deviations repaired in the library.
 Not proved: that `expected` enumerates every required node exactly once is by construction of
 `expected` (one entry per child of each printed required slot; `nodeOK` demands that the printed
 required slots are duplicate-free and contain every occupied required slot), not a separate theorem.
@@ -76,22 +79,13 @@ def namedDevs : List (String × String × Dev) :=
 
 /-- the known findings of C13 (and C12) at schema level -/
 def knownDevs : List (String × String × Dev) :=
-  [("Case", "default", .none),
-   ("CommonTableExpression", "query", .unvisited),
-   ("CreateKnowledgeBase", "from_query", .unvisited),
-   ("CreateTable", "columns", .extra),
-   ("Delete", "table", .unvisited),
-   ("Function", "from_arg", .unvisited),
+  [("CommonTableExpression", "query", .unvisited),   -- a CTE entry walked on its own (never inside a tree)
+   ("CreateTable", "columns", .extra),               -- TableColumn objects are passed to the visitor
    ("Join", "right", .order),
-   ("Select", "limit", .unvisited),
-   ("Select", "offset", .unvisited),
    ("Select", "from_table", .order),
    ("Select", "targets", .order),
-   ("Select", "cte", .via),
-   ("Select", "cte", .replace),
-   ("Show", "where", .unvisited),
-   ("Update", "where", .order),
-   ("WindowFunction", "function", .replace)]
+   ("Select", "cte", .via),                          -- the entry is skipped, its body is traversed and assigned back
+   ("Update", "where", .order)]
 
 /-- Φ13: the probed schema deviates exactly at the listed triples -/
 theorem phi13 : namedDevs = knownDevs := by decide +kernel
@@ -103,6 +97,16 @@ theorem phi13_rest :
 
 /-- the exemplars of every class agreed with each other (uniformity of the probe) -/
 theorem phi13_uniform : Schema.nonuniform = 0 := by decide
+
+/-- on the probed schema no branch passes `None`, every replacement is assigned to the visited position -/
+theorem phi13_clean : noNoneSchema σ = true
+    ∧ σ.all (fun r => r.walk.all (fun e => e.repl == .same)) = true := by decide +kernel
+
+/-- hence, for **every** tree and every visitor (no hypothesis), the visitor is never called with `None`
+(repaired in the library by 5d2003c; before, `CASE` without `ELSE` was a counterexample) -/
+theorem C13_no_none_call {S : Type} (cb : Cb S) (t : Node) (st : S) :
+    ∀ v ∈ (walk σ cb t st).log, v.node.isSome = true :=
+  no_none_all σ phi13_clean.1 cb t false false 0 st
 
 /-- `C13_partial`: the property on every tree that avoids the excepted configurations -/
 theorem C13_partial (t : Node) (h : okTree σ t = true) : C13_body σ t := C13_lifting σ t h
@@ -121,10 +125,10 @@ def wJoin : Node := .mk (cid "Join") 0 0 [leaf "Join" "left" 1, leaf "Join" "rig
 theorem C13_witness_join : tagsOf wJoin = [some 0, some 2, some 1] ∧ expTags wJoin = [some 0, some 1, some 2] := by
   decide +kernel
 
-/-- `SELECT a FROM t LIMIT n`: FROM before the select list, LIMIT never -/
+/-- `SELECT a FROM t LIMIT n`: FROM before the select list (LIMIT is visited since bf148c0) -/
 def wSelect : Node := .mk (cid "Select") 0 0
   [leaf "Select" "targets" 1, leaf "Select" "from_table" 2, leaf "Select" "limit" 3]
-theorem C13_witness_select : tagsOf wSelect = [some 0, some 2, some 1]
+theorem C13_witness_select : tagsOf wSelect = [some 0, some 2, some 1, some 3]
     ∧ expTags wSelect = [some 0, some 1, some 2, some 3] := by decide +kernel
 
 /-- `UPDATE t SET a = x WHERE c`: WHERE before SET -/
@@ -133,38 +137,43 @@ def wUpdate : Node := .mk (cid "Update") 0 0
 theorem C13_witness_update : tagsOf wUpdate = [some 0, some 1, some 3, some 2]
     ∧ expTags wUpdate = [some 0, some 1, some 2, some 3] := by decide +kernel
 
-/-- `CASE x WHEN a THEN b END`: `None` is passed to the visitor for the missing ELSE.
-(regression, fixed by a58885a: the operand `x` is visited first, in textual position) -/
-def wCase : Node := .mk (cid "Case") 0 0 [leaf "Case" "arg" 1, leaf "Case" "rules" 2, leaf "Case" "rules" 3]
-theorem C13_witness_case : tagsOf wCase = [some 0, some 1, some 2, some 3, none]
-    ∧ expTags wCase = [some 0, some 1, some 2, some 3] := by decide +kernel
-/-- (regression example) with an ELSE the simple CASE satisfies the hypothesis of `C13_partial` -/
-example : okTree σ (.mk (cid "Case") 0 0
-    [leaf "Case" "arg" 1, leaf "Case" "rules" 2, leaf "Case" "rules" 3, leaf "Case" "default" 4]) = true := by
-  decide +kernel
-
-/-- `f(a FROM b)` and `DELETE FROM t WHERE c` -/
-def wFunction : Node := .mk (cid "Function") 0 0 [leaf "Function" "args" 1, leaf "Function" "from_arg" 2]
-def wDelete : Node := .mk (cid "Delete") 0 0 [leaf "Delete" "table" 1, leaf "Delete" "where" 2]
-theorem C13_witness_function : tagsOf wFunction = [some 0, some 1] ∧ expTags wFunction = [some 0, some 1, some 2] := by
-  decide +kernel
-theorem C13_witness_delete : tagsOf wDelete = [some 0, some 2] ∧ expTags wDelete = [some 0, some 1, some 2] := by
-  decide +kernel
-
-/-- `f(x) OVER (…)`: a replacement returned for the function is dropped -/
-def wWindow : Node := .mk (cid "WindowFunction") 0 0 [leaf "WindowFunction" "function" 1]
-theorem C13_witness_window :
-    (walk σ (cbAt 1 (.mk 0 0 9 [])) wWindow ()).self.flat = wWindow.flat := by decide +kernel
-
-/-- `WITH c AS (q) SELECT …`: a replacement returned for the body `q` replaces the whole CTE entry -/
+/-- `WITH c AS (q) SELECT x`: the select list is visited before the WITH body, and the entry itself is skipped -/
 def wCte : Node := .mk (cid "Select") 0 0
   [.mk (cid "CommonTableExpression") (sid "Select" "cte") 1
       [leaf "CommonTableExpression" "name" 2, leaf "CommonTableExpression" "query" 3],
    leaf "Select" "targets" 4]
-theorem C13_witness_cte :
-    (walk σ (cbAt 3 (.mk 0 0 9 [])) wCte ()).self.flat
-      = (Node.mk (cid "Select") 0 0 [.mk 0 (sid "Select" "cte") 9 [], leaf "Select" "targets" 4]).flat := by
+theorem C13_witness_cte : tagsOf wCte = [some 0, some 4, some 3] := by decide +kernel
+
+/-! ### regression examples for deviations repaired in the library -/
+
+/-- `CASE x WHEN a THEN b END` (a58885a operand visited, 5d2003c no `None` call) -/
+def wCase : Node := .mk (cid "Case") 0 0 [leaf "Case" "arg" 1, leaf "Case" "rules" 2, leaf "Case" "rules" 3]
+/-- `f(a FROM b)` (674e01f), `DELETE FROM t WHERE c` (4465d4e), `SHOW … WHERE c` (cad3869) -/
+def wFunction : Node := .mk (cid "Function") 0 0 [leaf "Function" "args" 1, leaf "Function" "from_arg" 2]
+def wDelete : Node := .mk (cid "Delete") 0 0 [leaf "Delete" "table" 1, leaf "Delete" "where" 2]
+def wShow : Node := .mk (cid "Show") 0 0 [leaf "Show" "where" 1]
+/-- `CREATE KNOWLEDGE_BASE … FROM (q)` (80b3789), `SELECT a LIMIT n OFFSET m` (bf148c0) -/
+def wKb : Node := .mk (cid "CreateKnowledgeBase") 0 0 [leaf "CreateKnowledgeBase" "from_query" 1]
+def wLimit : Node := .mk (cid "Select") 0 0
+  [leaf "Select" "targets" 1, leaf "Select" "limit" 2, leaf "Select" "offset" 3]
+theorem C13_regress_coverage :
+    [wCase, wFunction, wDelete, wShow, wKb, wLimit].all (fun t => okTree σ t && (tagsOf t == expTags t)) = true
+    ∧ tagsOf wCase = [some 0, some 1, some 2, some 3] ∧ tagsOf wDelete = [some 0, some 1, some 2] := by
   decide +kernel
+
+/-- `f(x) OVER (…)` (f7229da): a replacement returned for the function takes its place -/
+def wWindow : Node := .mk (cid "WindowFunction") 0 0 [leaf "WindowFunction" "function" 1]
+theorem C13_regress_window :
+    (walk σ (cbAt 1 (.mk 0 0 9 [])) wWindow ()).self.flat
+      = (Node.mk (cid "WindowFunction") 0 0 [.mk 0 (sid "WindowFunction" "function") 9 []]).flat := by decide +kernel
+
+/-- `WITH c AS (q) SELECT …` (ffd6264): a replacement returned for the body `q` replaces the body only -/
+theorem C13_regress_cte :
+    (walk σ (cbAt 3 (.mk 0 0 9 [])) wCte ()).self.flat
+      = (Node.mk (cid "Select") 0 0
+          [.mk (cid "CommonTableExpression") (sid "Select" "cte") 1
+            [leaf "CommonTableExpression" "name" 2, .mk 0 (sid "CommonTableExpression" "query") 9 []],
+           leaf "Select" "targets" 4]).flat := by decide +kernel
 
 /-! ### non-vacuity: trees that satisfy the hypothesis of `C13_partial` -/
 
@@ -185,7 +194,7 @@ example : okTree σ (.mk (cid "Update") 0 0 [leaf "Update" "table" 1, leaf "Upda
 example : okTree σ (.mk (cid "Case") 0 0 [leaf "Case" "rules" 1, leaf "Case" "rules" 2, leaf "Case" "default" 3]) = true := by
   decide +kernel
 /-- the excepted configurations are rejected by the hypothesis -/
-example : okTree σ wJoin = false ∧ okTree σ wSelect = false ∧ okTree σ wCase = false ∧ okTree σ wCte = false := by
+example : okTree σ wJoin = false ∧ okTree σ wSelect = false ∧ okTree σ wUpdate = false ∧ okTree σ wCte = false := by
   decide +kernel
 
 end MindsVerif.Props.C13
